@@ -182,3 +182,37 @@ def nontrivial(hist, outs):
                 ok = True
             open_.get(tid, set()).discard(code)
     return ok
+
+
+def scale_histories(uni, quick):
+    """large histories with the outputs C04 demands written down by construction: many threads, many open codes on one
+    thread, a very long window - sizes past the usual powers of two, where a bounded table / cache / queue would show"""
+    rd = uni.by_name['BSC_read'][0]
+    gp = uni.by_name['BSC_getpid'][0]
+    z = [0, 0, 0, 0]
+    out = []
+    for n in ([1100, 4200] if quick else [1100, 4200, 70000]):
+        # n threads each open a read, then each closes it (same order): every END delivers [its START, itself]
+        h = [[1000 + t, rd, 1, z] for t in range(n)] + [[1000 + t, rd, 2, z] for t in range(n)]
+        out.append(('threads-%d' % n, h, [None] * n + [[t, n + t] for t in range(n)]))
+        # round robin over the same threads, two calls each
+        h2, exp2 = [], []
+        for rnd in range(2):
+            base = len(h2)
+            h2 += [[1000 + t, rd, 1, z] for t in range(n)]
+            exp2 += [None] * n
+            h2 += [[1000 + t, rd, 2, z] for t in range(n)]
+            exp2 += [[base + t, base + n + t] for t in range(n)]
+        out.append(('threads-rr-%d' % n, h2, exp2))
+    for k in ([1500, 5000] if quick else [1500, 5000, 66000]):
+        # one call with k complete calls nested in it: the window is everything
+        h = [[7, rd, 1, z]] + [[7, gp, 3, z] for _ in range(k)] + [[7, rd, 2, z]]
+        out.append(('window-%d' % k, h, [None] + [[i + 1] for i in range(k)] + [list(range(k + 2))]))
+    codes = [ids[0] for nm, ids in sorted(uni.by_name.items()) if nm.startswith('BSC_') and uni.classify(ids[0])[1]][:300]
+    m = len(codes)
+    # m different calls open at once on one thread, closed in opening order: END j delivers its START, everything of the
+    # thread after it (later STARTs, earlier ENDs are before... ) up to itself
+    h = [[9, c, 1, z] for c in codes] + [[9, c, 2, z] for c in codes]
+    exp = [None] * m + [list(range(j, m + j + 1)) for j in range(m)]
+    out.append(('open-codes-%d' % m, h, exp))
+    return out
